@@ -1,10 +1,12 @@
 package ctext
 
 import (
+	"errors"
 	"fmt"
 	"os"
 	"path/filepath"
 	"sort"
+	"strings"
 	"testing"
 
 	"github.com/gogpu/naga"
@@ -66,4 +68,133 @@ func forEachCorpusKernel(t *testing.T, opts msl.Options, f func(file, entry, txt
 		}
 	}
 	return len(paths), skippedFront
+}
+
+// TestCorpusParsesMSL compiles every compute entry point of the naga snapshot
+// corpus to MSL under several option sets and requires that the text parses
+// as MSL.  Statistics are printed with -v.  InvalidErrors are compared
+// against the triaged list.
+func TestCorpusParsesMSL(t *testing.T) {
+	type result struct {
+		file, entry, cfg string
+		err              error
+	}
+	var results []result
+	runStats := map[string]int{}
+	backendRejected := 0
+	var nfiles, skippedFront int
+	for _, mc := range mslConfigs {
+		opts := mc.opts
+		if mc.binding == "map" {
+			opts.FakeMissingBindings = true // no per-entry map for the corpus: every binding is "missing"
+		}
+		nfiles, skippedFront = forEachCorpusKernel(t, opts, func(file, entry, txt string, err error) {
+			if err != nil {
+				backendRejected++
+				return
+			}
+			prog, perr := Parse(MSL, txt)
+			results = append(results, result{file, entry, mc.name, perr})
+			if prog == nil {
+				return
+			}
+			// smoke run over zero-filled buffers: must never panic
+			cfg := RunConfig{NumWorkgroups: [3]uint32{1, 1, 1}, LocalSize: [3]uint32{2, 1, 1}, StepLimit: 300000, BlockByName: map[string][]byte{}, Buffers: map[Slot][]byte{}}
+			for _, e := range prog.EntryPoints() {
+				if e.Stage != "kernel" {
+					continue
+				}
+				cfg.Entry = e.Name
+				for _, a := range e.Args {
+					if a.BlockName != "" && a.Type != "_mslBufferSizes" {
+						cfg.BlockByName[a.Name] = make([]byte, 1024)
+					}
+				}
+			}
+			res, rerr := prog.Run(cfg)
+			switch {
+			case rerr != nil:
+				runStats["error: "+firstWords(rerr.Error(), 4)]++
+			case res.Trap != "":
+				runStats["trap: "+firstWords(res.Trap, 4)]++
+				if testing.Verbose() {
+					t.Logf("    trap in %s:%s [%s]: %s", file, entry, mc.name, res.Trap)
+				}
+			case len(res.Poison) > 0:
+				runStats["poison"]++
+				if testing.Verbose() && mc.name == mslConfigs[1].name {
+					t.Logf("    poison in %s:%s: %s", file, entry, res.Poison[0])
+				}
+			default:
+				runStats["clean"]++
+			}
+		})
+	}
+	ok, unsup, invalid := 0, 0, 0
+	unsupWhat := map[string]int{}
+	invalidByMsg := map[string][]string{}
+	for _, r := range results {
+		var ie *InvalidError
+		var ue *UnsupportedError
+		switch {
+		case r.err == nil:
+			ok++
+		case errors.As(r.err, &ue):
+			unsup++
+			unsupWhat[ue.What]++
+		case errors.As(r.err, &ie):
+			invalid++
+			key := ie.Code + ": " + ie.Msg
+			invalidByMsg[key] = append(invalidByMsg[key], r.file+":"+r.entry+":"+r.cfg)
+		default:
+			t.Errorf("%s %s %s: unexpected error type %v", r.file, r.entry, r.cfg, r.err)
+		}
+	}
+	t.Logf("corpus: %d files, %d skipped by naga front end, %d (entry,config) rejected by the MSL backend", nfiles, skippedFront, backendRejected)
+	t.Logf("parsed %d texts: ok %d, unsupported %d, invalid %d", len(results), ok, unsup, invalid)
+	for _, k := range sortedKeys(unsupWhat) {
+		t.Logf("  unsupported x%d: %s", unsupWhat[k], k)
+	}
+	for _, k := range sortedKeys(runStats) {
+		t.Logf("  smoke run x%d: %s", runStats[k], k)
+	}
+	untriaged := 0
+	for _, k := range sortedKeys(invalidByMsg) {
+		where := invalidByMsg[k]
+		known := false
+		for _, pat := range triagedNagaMSLDefects {
+			if strings.Contains(k, pat) {
+				known = true
+			}
+		}
+		tag := "UNTRIAGED"
+		if known {
+			tag = "naga defect"
+		} else {
+			untriaged += len(where)
+		}
+		t.Logf("  invalid [%s] x%d: %s   e.g. %s", tag, len(where), k, where[0])
+	}
+	if untriaged > 0 {
+		t.Errorf("%d corpus texts fail to parse with an untriaged InvalidError", untriaged)
+	}
+	// textures, ray queries, 64-bit integers and atomics make up the bulk of
+	// the unsupported corpus texts (they are a large share of the compute
+	// entry points of the snapshot corpus)
+	if len(results) > 0 && unsup*4 > len(results) {
+		t.Errorf("more than 25%% of the corpus is unsupported (%d of %d)", unsup, len(results))
+	}
+}
+
+// triagedNagaMSLDefects: substrings of InvalidError messages on corpus
+// outputs that were examined by hand and are defects of the generated MSL.
+var triagedNagaMSLDefects = []string{
+	// f64: "constant double MIN_F64_ = ..." / "naga_f2i32(double value)": MSL has no double type (§2.1)
+	`MSL has no type "double"`,
+	// ReadZeroSkipWrite index check written inside the operand of '&':
+	// "naga_atomic_compare_exchange_weak_explicit(&uint(_e20) < 128 ? arr.inner[_e20] : DefaultConstructible(), ..."
+	"cannot take the address of an rvalue of type uint",
+	// ReadZeroSkipWrite load "c ? x : DefaultConstructible()" emitted without parentheses as an operand:
+	// "a * uint(i) < 4 ? v[i] : DefaultConstructible()"
+	"with a DefaultConstructible operand is ambiguous",
 }
